@@ -377,6 +377,7 @@ c07 = pool_prop(
     "seeded sessions of credit accrual (billing and direct credit), deposits, repeated withdrawals, settlement failures, "
     "fees 0/10, minimum off/5/50; compared: outcome, amount paid, credit left, cumulative paid per wallet",
     lambda tier: CONC_MC + [("VipStoreMC", "VipStoreMC_bal.cfg")] + ([("VipPoolMC", "VipPoolMC_bill_q.cfg")] if tier == "quick" else [("VipPoolMC", "VipPoolMC_bill.cfg")]),
+    cfg=dict(prelink=True),
     weights=dict(withdraw=30, credit=14, deposit=10, settlemode=8, addnode=8, update=25, sleep=10, forged=4, wburst=6),
     extra_jobs=lambda s, tier, work: race_jobs("c07race", s, tier, work, "wallet"))
 
@@ -386,7 +387,8 @@ c08 = pool_prop(
     "maxima 0..3, agents that ack / ack slowly / fail / hang; compared: which hosts are instructed, the reply set, "
     "error vs reply, time the pool waited",
     lambda tier: [("VipStoreMC", "VipStoreMC_peer_q.cfg")] + ([("VipPoolMC", "VipPoolMC_peer_q.cfg")] if tier == "quick" else [("VipPoolMC", "VipPoolMC_peer.cfg")]),
-    weights=dict(peer=45, client=6, mode=10, update=20, sleep=12, close=5, reopen=5, reconnect=8, forged=2))
+    weights=dict(peer=45, client=16, mode=10, update=20, sleep=12, close=5, reopen=5, reconnect=8, forged=2, replay=1, forgedrun=0, status=0, stats=0),
+    quick=(36, 45))
 
 def c09_binary(s, tier, work):
     C.build(("real", "node"))
